@@ -86,6 +86,8 @@ def run(R):
         r8(R)
     if R.want("C08.R9"):
         r9(R, m)
+    if R.want("C08.R10"):
+        r10(R, m)
     if R.want("C08.R7"):
         # "indexes ... within the hkl tolerance": the gate's count (cImageD11.score), the peaks claimed (score_and_assign via
         # getind), the refinement (score_and_refine) and the Python references use ONE predicate.  Shared with C06.R3 / R4.
@@ -969,3 +971,40 @@ def r9(R, m):
                 "only pairs of two different rings are searched: orientations that can only be generated from two peaks of the same ring "
                 "(a single ring in forgen / rings_to_use, or only one ring populated) are never tried and their grains are not reported")
     R.floor("C08.R9", 2)
+
+
+# --------------------------------------------------------------------------------------------------
+# partial functions of the math module raise ValueError outside their domain where numpy returns nan.  Confirmed by reading (one line of
+# reason each): the sites that exist today on the route every search takes
+MATH_OK = {
+    ("indexer.find", "math.acos(c)"): "c is a cosine taken from unitcell.anglehkls' own table of ideal angles, |c| <= 1 by construction; logging only",
+}
+SEARCH_ROUTE = ("indexer.assigntorings", "indexer.find", "indexer.scorethem", "indexer.score_all_pairs", "indexer.getind", "indexer.score",
+                "indexer.friedelpairs", "indexer.fight_over_peaks", "do_index", "index", "indexer.__init__", "indexer.reset")
+
+
+def r10(R, m):
+    """completeness: every search entry point (index, do_index, score_all_pairs, find) starts with assigntorings.  An exception there means
+    no orientation is tried at all.  The quantities handled on that route depend on the data and on the wavelength the user supplied (or
+    the default -1): a math.asin / acos / sqrt / log of such a value raises ValueError where the numpy function used so far gives nan
+    (the ring table's two-theta column for rings beyond 2/|wavelength|)."""
+    R.rule("C08.R10", "no math.asin / acos / sqrt / log (which raise outside their domain) on the route every search takes "
+                      "(assigntorings, find, scorethem, score_all_pairs, getind, ...), other than the confirmed sites")
+    PART = ("math.asin", "math.acos", "math.sqrt", "math.log", "math.log10", "math.log2", "math.acosh", "math.atanh")
+    n = 0
+    for q in SEARCH_ROUTE:
+        if not m.has(q):
+            continue
+        fn = m.func(q)
+        n += 1
+        for c in ast.walk(fn):
+            if isinstance(c, ast.Call) and (dotted(c.func) or "") in PART:
+                key = (q, nows(src(c)))
+                ok = any(k[0] == q and nows(k[1]) == key[1] for k in MATH_OK)
+                const = c.args and pyfacts.const_int(c.args[0]) is not None
+                R.check(ok or const, "C08.R10", REL, c.lineno, q, src(c)[:70],
+                        "%s raises ValueError when its argument leaves the domain (numpy's %s returns nan): on this route that aborts the search "
+                        "before a single orientation is tried, e.g. for rings beyond 2/|wavelength| with the default wavelength -1 or a wavelength "
+                        "that does not belong to the g-vectors" % (dotted(c.func), (dotted(c.func) or "").replace("math.a", "np.arc").replace("math.", "np.")))
+        R.inst("C08.R10", "%s:%s partial math functions" % (REL, q))
+    R.floor("C08.R10", 8)
